@@ -74,6 +74,16 @@ def run(ctx):
         contribs = rng.sample(pool, k)
         spec = tmodel.gen_spec(rng, contribs=contribs, nlayers=rng.choice([2, 3, 4, 5, 7]),
                                nwn=rng.choice([1, 2, 3]))
+        if rng.random() < 0.35:
+            # one species present in some layers only (exact zeros elsewhere): it still absorbs / scatters where it is
+            ga = rng.choice(spec['gases'])
+            nl_ = spec['nlayers']
+            arr = [spec['mix'][ga] * 10 ** rng.uniform(-1, 1) if spec['mix'][ga] > 0 else 10 ** rng.uniform(-8, -3)
+                   for _ in range(nl_)]
+            for z_ in rng.sample(range(nl_), rng.randint(1, max(1, nl_ - 1))):
+                arr[z_] = 0.0
+            spec['mixarr'] = {ga: arr}
+            ctx.count('species with zero abundance in some layers')
         try:
             one_case(ctx, rng, spec, prep_exprs, prep_meta, full_exprs, full_meta)
         except Exception as e:
@@ -202,8 +212,9 @@ def one_case(ctx, rng, spec, prep_exprs, prep_meta, full_exprs, full_meta):
     # (c) zero abundance / proportionality
     if 'Absorption' in spec['contribs'] and len(spec['gases']) >= 2:
         g0 = rng.choice(spec['gases'])
-        s0 = dict(spec, mix=dict(spec['mix'], **{g0: 0.0}))
-        s1 = dict(spec, gases=[g for g in spec['gases'] if g != g0])
+        noarr = {g_: a_ for g_, a_ in spec.get('mixarr', {}).items() if g_ != g0}
+        s0 = dict(spec, mix=dict(spec['mix'], **{g0: 0.0}), mixarr=noarr)
+        s1 = dict(spec, gases=[g for g in spec['gases'] if g != g0], mixarr=noarr)
         with np.errstate(all='ignore'):
             ta = np.array(tmodel.build(s0).model()[2])
             tb = np.array(tmodel.build(s1).model()[2])
